@@ -82,11 +82,22 @@ const (
 )
 
 // build assembles the function; consts != nil replaces the address parameters by constants.
-func build(p *program, minPages, maxPages uint32, consts *[2]uint32) []byte {
+//
+// kind says what the "call" / "callgrow" tokens call: "local" functions of the module, "host" functions imported from env
+// (the growing one uses api.Memory.Grow on the caller's memory) or "reenter": host functions that call back exports of the guest.
+func build(p *program, minPages, maxPages uint32, consts *[2]uint32, kind string) []byte {
 	m := wb.New()
+	var hnop, hgrow uint32
+	if kind != "local" {
+		hnop = m.ImportFunc("env", kind+"_nop", nil, nil)
+		hgrow = m.ImportFunc("env", kind+"_grow", nil, nil)
+	}
 	m.Memory(minPages, &maxPages, "mem")
-	nop := m.AddFunc(wb.Func{})
-	grower := m.AddFunc(wb.Func{Body: wb.Cat(wb.I32Const(int32(p.Scale)), wasm.OpcodeMemoryGrow, 0, wasm.OpcodeDrop)})
+	nop := m.AddFunc(wb.Func{Export: "nopf"})
+	grower := m.AddFunc(wb.Func{Body: wb.Cat(wb.I32Const(int32(p.Scale)), wasm.OpcodeMemoryGrow, 0, wasm.OpcodeDrop), Export: "grow1"})
+	if kind != "local" {
+		nop, grower = hnop, hgrow
+	}
 	var b []byte
 	if consts != nil {
 		b = append(b, wb.Cat(wb.I32Const(int32(consts[0])), wb.LocalSet(locP0), wb.I32Const(int32(consts[1])), wb.LocalSet(locP1))...)
@@ -210,8 +221,13 @@ func execute(res *common.Result, p *program, r *run, rt wazero.Runtime, cm wazer
 		return
 	}
 	if engine == "compiler" {
+		// the defect makes the guest see length 0 once the memory is 65536 pages long: the first access after that whose bounds
+		// check is not elided traps. Which one that is depends on bounds-check elimination, so every access executed at that
+		// size is a candidate; everything before it must match the reference.
+		tried := 0
 		for i, a := range r.Accs {
-			if a.Pg*p.Scale >= 65536 {
+			if a.Pg*p.Scale >= 65536 && tried < 6 {
+				tried++
 				alt := *r
 				alt.Accs = r.Accs[:i]
 				alt.Trap, alt.TrapAt = true, a.At
@@ -222,7 +238,6 @@ func execute(res *common.Result, p *program, r *run, rt wazero.Runtime, cm wazer
 					res.AddFail("engine=compiler;pages=65536;guest-sees-length-0", tmp.Msg)
 					return
 				}
-				break
 			}
 		}
 	}
@@ -417,13 +432,37 @@ func runProgram(id int, raw json.RawMessage) common.Result {
 			cfg = wazero.NewRuntimeConfigCompiler()
 		}
 		rt := wazero.NewRuntimeWithConfig(ctx, cfg)
+		scale := uint32(p.Scale)
+		if _, err := rt.NewHostModuleBuilder("env").
+			NewFunctionBuilder().WithGoModuleFunction(api.GoModuleFunc(func(context.Context, api.Module, []uint64) {}), nil, nil).Export("host_nop").
+			NewFunctionBuilder().WithGoModuleFunction(api.GoModuleFunc(func(_ context.Context, m api.Module, _ []uint64) { m.Memory().Grow(scale) }), nil, nil).Export("host_grow").
+			NewFunctionBuilder().WithGoModuleFunction(api.GoModuleFunc(func(c context.Context, m api.Module, _ []uint64) {
+			if _, err := m.ExportedFunction("nopf").Call(c); err != nil {
+				panic(err)
+			}
+		}), nil, nil).Export("reenter_nop").
+			NewFunctionBuilder().WithGoModuleFunction(api.GoModuleFunc(func(c context.Context, m api.Module, _ []uint64) {
+			if _, err := m.ExportedFunction("grow1").Call(c); err != nil {
+				panic(err)
+			}
+		}), nil, nil).Export("reenter_grow").Instantiate(ctx); err != nil {
+			res.AddFail("infra", "host module: "+err.Error())
+			return res
+		}
+		hasCall := false
+		for _, t := range p.Prog {
+			if t.T == "call" || t.T == "callgrow" {
+				hasCall = true
+			}
+		}
 		// one compile per initial size (the declared limits differ)
 		cms := map[int]wazero.CompiledModule{}
+		kcms := map[string]wazero.CompiledModule{}
 		for i := range p.Runs {
 			r := &p.Runs[i]
 			cm := cms[r.Inp.S]
 			if cm == nil {
-				bin := build(&p, uint32(r.Inp.S*p.Scale), maxPagesOf(&p, r.Inp.S), nil)
+				bin := build(&p, uint32(r.Inp.S*p.Scale), maxPagesOf(&p, r.Inp.S), nil, "local")
 				var err error
 				cm, err = rt.CompileModule(ctx, bin)
 				if err != nil {
@@ -439,9 +478,28 @@ func runProgram(id int, raw json.RawMessage) common.Result {
 			for _, alloc := range allocs {
 				execute(&res, &p, r, rt, cm, engine, alloc, "param")
 			}
+			// the same program with the call tokens bound to imported host functions / host functions that re-enter the guest
+			if hasCall {
+				for _, kind := range []string{"host", "reenter"} {
+					k := fmt.Sprint(kind, r.Inp.S)
+					kcm := kcms[k]
+					if kcm == nil {
+						var err error
+						kcm, err = rt.CompileModule(ctx, build(&p, uint32(r.Inp.S*p.Scale), maxPagesOf(&p, r.Inp.S), nil, kind))
+						if err != nil {
+							res.AddFail("engine="+engine+";compile", "generated program rejected: "+err.Error()+" "+progString(&p))
+							break
+						}
+						kcms[k] = kcm
+					}
+					for _, alloc := range allocs { // the default allocator moves the buffer when it grows: a stale base shows there
+						execute(&res, &p, r, rt, kcm, engine, alloc, "param-"+kind+"-callee")
+					}
+				}
+			}
 			if p.Const && (i%5 == id%5 || r.Inp.V0u*p.Scale >= 32768) {
 				c := [2]uint32{uint32(abs(&p, r.Inp.V0u, r.Inp.V0d)), uint32(abs(&p, r.Inp.V1u, r.Inp.V1d))}
-				bin := build(&p, uint32(r.Inp.S*p.Scale), maxPagesOf(&p, r.Inp.S), &c)
+				bin := build(&p, uint32(r.Inp.S*p.Scale), maxPagesOf(&p, r.Inp.S), &c, "local")
 				ccm, err := rt.CompileModule(ctx, bin)
 				if err != nil {
 					res.AddFail("engine="+engine+";compile", "generated program rejected: "+err.Error())
